@@ -596,6 +596,34 @@ def rule_abs_tolerance(ctx, R, funcs, what):
                 ctx.ob(R, f.qname, "no branch is decided by a default-tolerance comparison of data", False,
                        f"`{norm(c)[:90]}` uses the default absolute tolerance 1e-8: for data of magnitude below 1e-8 it holds whatever the values are, so the "
                        f"shortcut it guards changes the result when the inputs are rescaled; {what}", c, evidence=True)
+        # a magnitude compared with a tiny fixed number decides a branch that returns / assigns (guards that raise are input validation)
+        for c in ast.walk(f.node):
+            if not (isinstance(c, ast.Compare) and len(c.ops) == 1 and isinstance(c.ops[0], (ast.Lt, ast.LtE, ast.Gt, ast.GtE))):
+                continue
+            sides = [c.left, c.comparators[0]]
+            lit = [x for x in sides if isinstance(x, ast.Constant) and isinstance(x.value, (int, float)) and not isinstance(x.value, bool) and 0 < abs(x.value) <= 1e-6]
+            mag = [x for x in sides if isinstance(x, ast.Call) and norm(x.func) in ("np.linalg.norm", "abs", "np.abs", "np.max", "np.amax", "np.sum", "np.linalg.norm", "scipy.linalg.norm", "sps.linalg.norm")
+                   and x.args and not any(w in norm(x.args[0]) for w in _META_WORDS)]
+            if len(lit) != 1 or len(mag) != 1:
+                continue
+            cur, head = c, None
+            while cur is not None and cur is not f.node:
+                par = getattr(cur, "_parent", None)
+                if isinstance(par, (ast.If, ast.IfExp)) and cur is par.test:
+                    head = par
+                    break
+                if isinstance(par, ast.Assert):
+                    break
+                cur = par
+            if head is None:
+                continue
+            raises = isinstance(head, ast.If) and all(isinstance(x, ast.Raise) for x in head.body) and not head.orelse
+            if raises:
+                continue
+            ctx.instance(R)
+            ctx.ob(R, f.qname, "no branch is decided by comparing a data magnitude with a fixed tiny number", False,
+                   f"`{norm(c)[:80]}` compares the size of the data with the absolute threshold {lit[0].value}: inputs of small magnitude (tiny masses, SI units) take the shortcut whatever "
+                   f"their values are; {what}", c, evidence=True)
     ctx.instance(R, 0)
     ctx.ob(R, "darsia", f"{n} function(s) scanned for default-tolerance comparisons of data", True, "", None)
 
